@@ -84,6 +84,15 @@ def templates(tier, seed=0):
     ts.append({'name': 'scalars', 'src': 'print(@h0@ == @h1@)\nprint(@b0@ == @b1@)\nprint(@b0@ != @b1@)\nprint("ab" == "a" + "b")\nprint("ab" == "ba")\nprint(null == null)\nprint(null != null)\n'})
     # functions: === is identity; == on functions is an error
     ts.append({'name': 'functions', 'src': 'fn f() {\n    return 1\n}\nfn g() {\n    return 1\n}\nh := f\nprint(f === h)\nprint(f === g)\nprint(f !== g)\nxs := [f]\nys := [f]\nif @b0@ {\n    print(xs == ys)\n} else {\n    print(f == f)\n}\n'})
+    # long containers: 70 equal records before the only difference
+    ts.append({'name': 'long-lists', 'src': 'fn table(n, last) {\n    out := []\n    i := 0\n    while i < n {\n        i += 1\n        v := 0\n        if i == n {\n            v = last\n        }\n        out += [{"id": i, "tags": [i], "v": v}]\n    }\n    return out\n}\na := table(70, @h10@)\nb := table(70, @h11@)\nprint(a == b)\nprint(b != a)\nprint(a == table(70, @h10@))\nprint(a[69] == b[69])\n', 'assume': lambda v: [v['h10'] >= 0, v['h10'] <= 1, v['h11'] >= 0, v['h11'] <= 1]})
+    # a list against an object: an error whatever their sizes
+    pairs = ['[1, 2] == {"a": 1}', '[] == {"a": 1}', '[1] == {}', '[[1, 2]] == [{"a": 1}]', '{"k": [1]} == {"k": {}}', '{"a": 1} != [1, 2]', '[[], 1] == [{}, 1]']
+    lad = []
+    for i, pr in enumerate(pairs):
+        lad.append(('if' if i == 0 else '} else if') + ' s == %d {' % i); lad.append('    print(%s)' % pr)
+    lad.append('}')
+    ts.append({'name': 'list-vs-object', 'src': '\n'.join(['s := @h0@'] + lad + ['print(9)']) + '\n', 'assume': lambda v: [v['h0'] >= 0, v['h0'] <= len(pairs)]})
     # a self-containing value compared with itself (identity short-cut), and a container compared with the value it contains
     ts.append({'name': 'self-containing', 'src': 'a := [1]\na[0] = a\nprint(a === a)\nprint(a === a[0])\nb := [[2]]\nprint(b == b[0])\nprint(b[0] == b)\nprint([b] == b)\n'})
     ts.append({'name': 'alias-vs-copy', 'src': 'a := [@h10@, [@h11@]]\nb := a\nc := [@h10@, [@h11@]]\nprint(a == b)\nprint(a === b)\nprint(a == c)\nprint(a === c)\nprint(a[1] === b[1])\nprint(a[1] === c[1])\nprint(a[1] == c[1])\n'})
